@@ -309,8 +309,8 @@ def d5_fscale(ctx):
 
 
 def run(ctx):
-    d1_irfft(ctx)
-    d2_same_crop(ctx)
-    d3_filters(ctx)
-    d4_half_spectrum(ctx)
-    d5_fscale(ctx)
+    ctx.run(d1_irfft)
+    ctx.run(d2_same_crop)
+    ctx.run(d3_filters)
+    ctx.run(d4_half_spectrum)
+    ctx.run(d5_fscale)
